@@ -37,10 +37,10 @@ pub fn get_structure_member_attributes(field: &Field) -> Result<StructureMemberA
     let mut hashid = false;
     let mut try_construct = None;
 
-    if let Some(xtypes_attribute) = field
+    for xtypes_attribute in field
         .attrs
         .iter()
-        .find(|attr| attr.path().is_ident("dust_dds"))
+        .filter(|attr| attr.path().is_ident("dust_dds"))
     {
         xtypes_attribute.parse_nested_meta(|meta| {
             if meta.path.is_ident("id") {
@@ -119,10 +119,10 @@ pub fn get_struct_attributes(input: &DeriveInput) -> Result<StructAttributes> {
     let mut is_nested = false;
     let mut base_type = None;
 
-    if let Some(xtypes_attribute) = input
+    for xtypes_attribute in input
         .attrs
         .iter()
-        .find(|attr| attr.path().is_ident("dust_dds"))
+        .filter(|attr| attr.path().is_ident("dust_dds"))
     {
         xtypes_attribute.parse_nested_meta(|meta| {
             if meta.path.is_ident("name") {
@@ -182,10 +182,10 @@ pub fn get_enumerated_type_attributes(input: &DeriveInput) -> Result<EnumeratedT
     let mut is_nested = false;
     let mut bit_bound = BitBound::I32;
 
-    if let Some(xtypes_attribute) = input
+    for xtypes_attribute in input
         .attrs
         .iter()
-        .find(|attr| attr.path().is_ident("dust_dds"))
+        .filter(|attr| attr.path().is_ident("dust_dds"))
     {
         xtypes_attribute.parse_nested_meta(|meta| {
             if meta.path.is_ident("name") {
@@ -241,10 +241,10 @@ pub fn get_union_type_attributes(input: &DeriveInput) -> Result<UnionAttributes>
     let mut is_discriminator_key = false;
     let mut discriminator_type = None;
 
-    if let Some(xtypes_attribute) = input
+    for xtypes_attribute in input
         .attrs
         .iter()
-        .find(|attr| attr.path().is_ident("dust_dds"))
+        .filter(|attr| attr.path().is_ident("dust_dds"))
     {
         xtypes_attribute.parse_nested_meta(|meta| {
             if meta.path.is_ident("name") {
@@ -312,10 +312,10 @@ pub fn get_union_variant_attributes(variant: &Variant) -> Result<UnionVariantAtt
     let mut case = Vec::new();
     let mut is_default = false;
 
-    if let Some(xtypes_attribute) = variant
+    for xtypes_attribute in variant
         .attrs
         .iter()
-        .find(|attr| attr.path().is_ident("dust_dds"))
+        .filter(|attr| attr.path().is_ident("dust_dds"))
     {
         xtypes_attribute.parse_nested_meta(|meta| {
             if meta.path.is_ident("case") {
